@@ -124,7 +124,12 @@ func regCmd(args []string) error {
 				w.top, w.direct = top, false
 				w.noFreshIDs = strings.Contains(sc.Stack, "http") || strings.Contains(sc.Stack, "unify")
 			}
-			w.step(ctx, op)
+			if !w.step(ctx, op) {
+				// the call never returned: the trace ends here (closing the stack could block on it too)
+				bw.Flush()
+				fmt.Printf("{\"scenarios\":%d,\"hang\":true}\n", total+1)
+				os.Exit(0)
+			}
 			w.snap(ctx)
 		}
 		total++
